@@ -5,7 +5,7 @@ PROPERTY = "C01"
 
 
 def tasks(tier):
-    return (contract_tasks("contracts.world_connect", "C01") + (contract_tasks("contracts.scheduler", "C01", tier=tier) + contract_tasks("contracts.sim_process", "C01", tier=tier)
+    return (contract_tasks("contracts.runner_init", "C01") + contract_tasks("contracts.world_connect", "C01") + (contract_tasks("contracts.scheduler", "C01", tier=tier) + contract_tasks("contracts.sim_process", "C01", tier=tier)
             + contract_tasks("contracts.progress", "C01", tier=tier) + lemma_tasks("contracts.progress", "C01")
             + contract_tasks("contracts.connect", "C01", tier=tier)
             # (the delay of a connection across group boundaries: group_path / connect_interval, served under C11)
